@@ -1,6 +1,9 @@
 theories/Spec/BV.vo theories/Spec/BV.glob theories/Spec/BV.v.beautified theories/Spec/BV.required_vo: theories/Spec/BV.v 
 theories/Spec/BV.vio: theories/Spec/BV.v 
 theories/Spec/BV.vos theories/Spec/BV.vok theories/Spec/BV.required_vos: theories/Spec/BV.v 
+theories/Spec/Btor2Sem.vo theories/Spec/Btor2Sem.glob theories/Spec/Btor2Sem.v.beautified theories/Spec/Btor2Sem.required_vo: theories/Spec/Btor2Sem.v theories/Spec/Eval.vo theories/Model/Btor2Parse.vo
+theories/Spec/Btor2Sem.vio: theories/Spec/Btor2Sem.v theories/Spec/Eval.vio theories/Model/Btor2Parse.vio
+theories/Spec/Btor2Sem.vos theories/Spec/Btor2Sem.vok theories/Spec/Btor2Sem.required_vos: theories/Spec/Btor2Sem.v theories/Spec/Eval.vos theories/Model/Btor2Parse.vos
 theories/Spec/Eval.vo theories/Spec/Eval.glob theories/Spec/Eval.v.beautified theories/Spec/Eval.required_vo: theories/Spec/Eval.v theories/Model/Expr.vo
 theories/Spec/Eval.vio: theories/Spec/Eval.v theories/Model/Expr.vio
 theories/Spec/Eval.vos theories/Spec/Eval.vok theories/Spec/Eval.required_vos: theories/Spec/Eval.v theories/Model/Expr.vos
@@ -37,6 +40,9 @@ theories/Proofs/Btor2ParseProofs.vos theories/Proofs/Btor2ParseProofs.vok theori
 theories/Proofs/Btor2Refine.vo theories/Proofs/Btor2Refine.glob theories/Proofs/Btor2Refine.v.beautified theories/Proofs/Btor2Refine.required_vo: theories/Proofs/Btor2Refine.v theories/Model/Expr.vo theories/Model/Btor2Parse.vo
 theories/Proofs/Btor2Refine.vio: theories/Proofs/Btor2Refine.v theories/Model/Expr.vio theories/Model/Btor2Parse.vio
 theories/Proofs/Btor2Refine.vos theories/Proofs/Btor2Refine.vok theories/Proofs/Btor2Refine.required_vos: theories/Proofs/Btor2Refine.v theories/Model/Expr.vos theories/Model/Btor2Parse.vos
+theories/Proofs/Btor2SemWitness.vo theories/Proofs/Btor2SemWitness.glob theories/Proofs/Btor2SemWitness.v.beautified theories/Proofs/Btor2SemWitness.required_vo: theories/Proofs/Btor2SemWitness.v theories/Model/Btor2Parse.vo theories/Spec/Btor2Sem.vo theories/Proofs/Btor2Witness.vo
+theories/Proofs/Btor2SemWitness.vio: theories/Proofs/Btor2SemWitness.v theories/Model/Btor2Parse.vio theories/Spec/Btor2Sem.vio theories/Proofs/Btor2Witness.vio
+theories/Proofs/Btor2SemWitness.vos theories/Proofs/Btor2SemWitness.vok theories/Proofs/Btor2SemWitness.required_vos: theories/Proofs/Btor2SemWitness.v theories/Model/Btor2Parse.vos theories/Spec/Btor2Sem.vos theories/Proofs/Btor2Witness.vos
 theories/Proofs/Btor2Witness.vo theories/Proofs/Btor2Witness.glob theories/Proofs/Btor2Witness.v.beautified theories/Proofs/Btor2Witness.required_vo: theories/Proofs/Btor2Witness.v theories/Model/Btor2Parse.vo
 theories/Proofs/Btor2Witness.vio: theories/Proofs/Btor2Witness.v theories/Model/Btor2Parse.vio
 theories/Proofs/Btor2Witness.vos theories/Proofs/Btor2Witness.vok theories/Proofs/Btor2Witness.required_vos: theories/Proofs/Btor2Witness.v theories/Model/Btor2Parse.vos
@@ -52,6 +58,9 @@ theories/Proofs/ExprLemmas.vos theories/Proofs/ExprLemmas.vok theories/Proofs/Ex
 theories/Props/C06.vo theories/Props/C06.glob theories/Props/C06.v.beautified theories/Props/C06.required_vo: theories/Props/C06.v theories/Model/EvalImpl.vo theories/Proofs/EvalProofs.vo theories/Proofs/EvalImplProofs.vo
 theories/Props/C06.vio: theories/Props/C06.v theories/Model/EvalImpl.vio theories/Proofs/EvalProofs.vio theories/Proofs/EvalImplProofs.vio
 theories/Props/C06.vos theories/Props/C06.vok theories/Props/C06.required_vos: theories/Props/C06.v theories/Model/EvalImpl.vos theories/Proofs/EvalProofs.vos theories/Proofs/EvalImplProofs.vos
+theories/Props/C08.vo theories/Props/C08.glob theories/Props/C08.v.beautified theories/Props/C08.required_vo: theories/Props/C08.v theories/Spec/SysClosed.vo theories/Model/Btor2Parse.vo theories/Spec/Btor2Sem.vo theories/Proofs/Btor2Witness.vo theories/Proofs/Btor2SemWitness.vo
+theories/Props/C08.vio: theories/Props/C08.v theories/Spec/SysClosed.vio theories/Model/Btor2Parse.vio theories/Spec/Btor2Sem.vio theories/Proofs/Btor2Witness.vio theories/Proofs/Btor2SemWitness.vio
+theories/Props/C08.vos theories/Props/C08.vok theories/Props/C08.required_vos: theories/Props/C08.v theories/Spec/SysClosed.vos theories/Model/Btor2Parse.vos theories/Spec/Btor2Sem.vos theories/Proofs/Btor2Witness.vos theories/Proofs/Btor2SemWitness.vos
 theories/Props/C18.vo theories/Props/C18.glob theories/Props/C18.v.beautified theories/Props/C18.required_vo: theories/Props/C18.v theories/Spec/SysClosed.vo theories/Model/Btor2Parse.vo theories/Proofs/Btor2Witness.vo theories/Proofs/Btor2ParseProofs.vo theories/Proofs/Btor2Refine.vo theories/Proofs/Btor2NoCrash.vo
 theories/Props/C18.vio: theories/Props/C18.v theories/Spec/SysClosed.vio theories/Model/Btor2Parse.vio theories/Proofs/Btor2Witness.vio theories/Proofs/Btor2ParseProofs.vio theories/Proofs/Btor2Refine.vio theories/Proofs/Btor2NoCrash.vio
 theories/Props/C18.vos theories/Props/C18.vok theories/Props/C18.required_vos: theories/Props/C18.v theories/Spec/SysClosed.vos theories/Model/Btor2Parse.vos theories/Proofs/Btor2Witness.vos theories/Proofs/Btor2ParseProofs.vos theories/Proofs/Btor2Refine.vos theories/Proofs/Btor2NoCrash.vos
